@@ -21,9 +21,13 @@
    The right operand is never written (only its deep copy is), so it is an argument only. *)
 From AB Require Import Prelude NumExpr.
 
-(* which order of statements: the code's, or the seeded regression (self is wrapped in parentheses BEFORE the
-   operand is copied) *)
-Inductive variant := VCode | VWrapFirst.
+(* which code:
+     VCode      - the code as it is (with fixes/number-expr-spent-left-operand.patch: _wrap_paren inserts through the
+                  store of the NumberExpr the call came through);
+     VWrapFirst - the seeded regression: self is wrapped in parentheses BEFORE the operand is copied;
+     VAsFound   - the code as found: _wrap_paren inserts through add_expr.token_store, the store the tree node was last
+                  attached to (for a spent left operand: the document of the expression that received its tree). *)
+Inductive variant := VCode | VWrapFirst | VAsFound.
 
 Record sref := SR { s_first : nat; s_tree : add; s_owns : bool }.
 
@@ -77,29 +81,33 @@ Definition deepcopy_obj (o : eobj) : res (list tok * add) :=
   | Live x => Ok (re (body x), body x)
   end.
 
-(* _wrap_paren(add_expr), add_expr's first token at index `first` of store s (s is add_expr.token_store: the store the
-   tree node was last attached to - not necessarily the _token_store of the NumberExpr object the call came through):
-       add_expr.token_store.insert_before(add_expr.first_token, [left_paren])
-       add_expr.token_store.insert_after(add_expr.last_token, [right_paren])
-       return NumberParenExpr(store, left_paren, add_expr, right_paren) *)
-Definition wrap_paren_st (s : list tok) (first : nat) (e : add) : list tok * atom :=
-  let s1 := insert_at s first [TLp] in
-  let s2 := insert_at s1 (first + 1 + length (re e)) [TRp] in
-  (s2, Paren [] e []).
+(* _wrap_paren(token_store, add_expr), add_expr's first token at index `first` of store s (the store the tokens are in):
+       token_store.insert_before(add_expr.first_token, [left_paren])     # ValueError: token is in another store
+       token_store.insert_after(add_expr.last_token, [right_paren])
+       return NumberParenExpr(token_store, left_paren, add_expr, right_paren)
+   `through_own` = is `token_store` the store s?  (the code as found used add_expr.token_store: always s) *)
+Definition wrap_paren_st (through_own : bool) (s : list tok) (first : nat) (e : add) : res (list tok * atom) :=
+  if through_own then
+    let s1 := insert_at s first [TLp] in
+    let s2 := insert_at s1 (first + 1 + length (re e)) [TRp] in
+    Ok (s2, Paren [] e [])
+  else Err ValueError.
 
 (* _as_mul_expr(expr) *)
-Definition as_mul_st (s : list tok) (first : nat) (e : add) : list tok * mul :=
+Definition as_mul_st (through_own : bool) (s : list tok) (first : nat) (e : add) : res (list tok * mul) :=
   if negb (add_has_ops e) then
     match e with
-    | AMul m => (s, m)                                                   (* raw_operands[0] *)
-    | AOp _ _ _ _ _ => let (s', p) := wrap_paren_st s first e in (s', MAtom p)  (* unreachable *)
+    | AMul m => Ok (s, m)                                                (* raw_operands[0] *)
+    | AOp _ _ _ _ _ => Err ModelStuck                                    (* unreachable *)
     end
   else
-    let (s', paren_expr) := wrap_paren_st s first e in
-    (s', MAtom paren_expr).
+    match wrap_paren_st through_own s first e with
+    | Err x => Err x
+    | Ok (s', paren_expr) => Ok (s', MAtom paren_expr)
+    end.
 
 (* _as_atom_expr(expr) *)
-Definition as_atom_st (s : list tok) (first : nat) (e : add) : list tok * atom :=
+Definition as_atom_st (through_own : bool) (s : list tok) (first : nat) (e : add) : res (list tok * atom) :=
   match (if negb (add_has_ops e) then
            match e with
            | AMul m => if negb (mul_has_ops m)
@@ -108,8 +116,8 @@ Definition as_atom_st (s : list tok) (first : nat) (e : add) : list tok * atom :
            | AOp _ _ _ _ _ => None
            end
          else None) with
-  | Some a => (s, a)
-  | None => wrap_paren_st s first e
+  | Some a => Ok (s, a)
+  | None => wrap_paren_st through_own s first e
   end.
 
 (* RawModel.detach of a node with `n` tokens whose first token is at index `first` of store s:
@@ -128,17 +136,20 @@ Definition s_iaddsub (s : list tok) (self : sref) (other : eobj) (minus : bool) 
   match deepcopy_obj other with                                          (* other = copy.deepcopy(other) *)
   | Err e => (s, self, Err e)
   | Ok (os, oe) =>
-    let (os1, mul_expr) := as_mul_st os 0 oe in                          (* mul_expr = _as_mul_expr(other) *)
-    match detach_st os1 0 (length (rm mul_expr)) with                    (* *mul_expr.detach() *)
+    match as_mul_st true os 0 oe with                                    (* mul_expr = _as_mul_expr(other): in the copy's store *)
     | Err e => (s, self, Err e)
-    | Ok toks =>
-      match own_store_check self with                                    (* self.token_store.insert_after(self.last_token, [...]) *)
+    | Ok (os1, mul_expr) =>
+      match detach_st os1 0 (length (rm mul_expr)) with                  (* *mul_expr.detach() *)
       | Err e => (s, self, Err e)
-      | Ok _ =>
-        let s1 := insert_at s (s_first self + length (re (s_tree self)))
-                            ([TWs SP; TAddOp minus; TWs SP] ++ toks) in
-        (* mul_expr.reattach(self.token_store); self._number_add_expr = NumberAddExpr(operands + (mul_expr,), ops + (add_op,)) *)
-        (s1, SR (s_first self) (AOp (s_tree self) SP minus SP mul_expr) (s_owns self), Ok tt)
+      | Ok toks =>
+        match own_store_check self with                                  (* self.token_store.insert_after(self.last_token, [...]) *)
+        | Err e => (s, self, Err e)
+        | Ok _ =>
+          let s1 := insert_at s (s_first self + length (re (s_tree self)))
+                              ([TWs SP; TAddOp minus; TWs SP] ++ toks) in
+          (* mul_expr.reattach(self.token_store); self._number_add_expr = NumberAddExpr(operands + (mul_expr,), ops + (add_op,)) *)
+          (s1, SR (s_first self) (AOp (s_tree self) SP minus SP mul_expr) (s_owns self), Ok tt)
+        end
       end
     end
   end.
@@ -152,34 +163,47 @@ Definition after_wrap (self : sref) : sref :=
    of the operand exist *)
 Definition s_imuldiv_tail (s1 : list tok) (self : sref) (first_mul : nat) (self_mul_expr : mul) (os : list tok) (oe : add)
     (div : bool) : list tok * sref * res unit :=
-  let (os1, atom_expr) := as_atom_st os 0 oe in                          (* atom_expr = _as_atom_expr(other) *)
-  match detach_st os1 0 (length (ra atom_expr)) with                     (* *atom_expr.detach() *)
+  match as_atom_st true os 0 oe with                                     (* atom_expr = _as_atom_expr(other): in the copy's store *)
   | Err e => (s1, self, Err e)
-  | Ok toks =>
-    match own_store_check self with                                      (* self.token_store.insert_after(self_mul_expr.last_token, [...]) *)
+  | Ok (os1, atom_expr) =>
+    match detach_st os1 0 (length (ra atom_expr)) with                   (* *atom_expr.detach() *)
     | Err e => (s1, self, Err e)
-    | Ok _ =>
-      let s2 := insert_at s1 (first_mul + length (rm self_mul_expr))
-                          ([TWs SP; TMulOp div; TWs SP] ++ toks) in
-      (* atom_expr.reattach(...); self._number_add_expr = NumberAddExpr((NumberMulExpr(operands + (atom_expr,), ops + (mul_op,)),), ()) *)
-      (s2, SR first_mul (AMul (MOp self_mul_expr SP div SP atom_expr)) (s_owns self), Ok tt)
+    | Ok toks =>
+      match own_store_check self with                                    (* self.token_store.insert_after(self_mul_expr.last_token, [...]) *)
+      | Err e => (s1, self, Err e)
+      | Ok _ =>
+        let s2 := insert_at s1 (first_mul + length (rm self_mul_expr))
+                            ([TWs SP; TMulOp div; TWs SP] ++ toks) in
+        (* atom_expr.reattach(...); self._number_add_expr = NumberAddExpr((NumberMulExpr(operands + (atom_expr,), ops + (mul_op,)),), ()) *)
+        (s2, SR first_mul (AMul (MOp self_mul_expr SP div SP atom_expr)) (s_owns self), Ok tt)
+      end
     end
   end.
 
+(* through which store does _as_mul_expr(self) insert the parentheses: self's own (is it the one the tokens are in?),
+   or - as found - add_expr.token_store (always the one the tokens are in) *)
+Definition self_through_own (v : variant) (self : sref) : bool :=
+  match v with VAsFound => true | _ => s_owns self end.
+
 Definition s_imuldiv (v : variant) (s : list tok) (self : sref) (other : eobj) (div : bool) : list tok * sref * res unit :=
   match v with
-  | VCode =>
+  | VCode | VAsFound =>
     match deepcopy_obj other with                                        (* other = copy.deepcopy(other) *)
     | Err e => (s, self, Err e)
     | Ok (os, oe) =>
-      let (s1, self_mul_expr) := as_mul_st s (s_first self) (s_tree self) in   (* self_mul_expr = _as_mul_expr(self) *)
-      s_imuldiv_tail s1 (after_wrap self) (s_first self) self_mul_expr os oe div
+      match as_mul_st (self_through_own v self) s (s_first self) (s_tree self) with   (* self_mul_expr = _as_mul_expr(self) *)
+      | Err e => (s, self, Err e)
+      | Ok (s1, self_mul_expr) => s_imuldiv_tail s1 (after_wrap self) (s_first self) self_mul_expr os oe div
+      end
     end
   | VWrapFirst =>
-    let (s1, self_mul_expr) := as_mul_st s (s_first self) (s_tree self) in     (* self_mul_expr = _as_mul_expr(self) *)
-    match deepcopy_obj other with                                        (* other = copy.deepcopy(other) *)
-    | Err e => (s1, after_wrap self, Err e)
-    | Ok (os, oe) => s_imuldiv_tail s1 (after_wrap self) (s_first self) self_mul_expr os oe div
+    match as_mul_st (self_through_own v self) s (s_first self) (s_tree self) with     (* self_mul_expr = _as_mul_expr(self) *)
+    | Err e => (s, self, Err e)
+    | Ok (s1, self_mul_expr) =>
+      match deepcopy_obj other with                                      (* other = copy.deepcopy(other) *)
+      | Err e => (s1, after_wrap self, Err e)
+      | Ok (os, oe) => s_imuldiv_tail s1 (after_wrap self) (s_first self) self_mul_expr os oe div
+      end
     end
   end.
 
